@@ -1,5 +1,5 @@
 (* Check/PieceStoreCheck.v — correspondence and monitors for the piece store (C01, C03). *)
-From Storrent Require Import Base.Bytes Model.PieceStore.
+From Storrent Require Import Base.Bytes Model.PieceStore Model.Expire.
 Open Scope N_scope.
 
 Definition CS : N := 16384.
@@ -166,15 +166,31 @@ Definition bad_corr_ps (cs : list pcase) : list N := map pcs_id (filter (fun c =
 Definition bad_monitor_ps (cs : list pcase) : list N := map pcs_id (filter (fun c => negb (mon_ps c)) cs).
 Definition bad_monitor_stress (cs : list stress) : list N := map sx_id (filter (fun c => negb (mon_stress c)) cs).
 
-(* the global eviction pass: return code + 1, memory before and after *)
-Record gx := mk_gx { gx_id : N; gx_mark : N; gx_rc : N; gx_before : N; gx_after : N; gx_panic : bool; gx_dirty : bool }.
+(* the global eviction pass: return code + 1, memory before and after, and per torrent *)
+Record gx := mk_gx { gx_id : N; gx_mark : N; gx_rc : N; gx_before : N; gx_after : N; gx_panic : bool; gx_dirty : bool;
+                     gx_sizes : list Z; gx_afters : list Z }.
+
+Fixpoint all2 {A C} (f : A -> C -> bool) (l1 : list A) (l2 : list C) : bool :=
+  match l1, l2 with
+  | [], [] => true
+  | a :: r1, b :: r2 => f a b && all2 f r1 r2
+  | _, _ => false
+  end.
 
 (* it never crashes; when it decides to evict (rc = -1) memory comes down to the low-water mark
-   (7/8 of the target); otherwise memory was below the target *)
+   (7/8 of the target); otherwise memory was below the target.  Its decision and the share it
+   gives each torrent are those of Model/Expire.v: torrents above the share come down to it, the
+   others are left alone. *)
 Definition mon_gx (g : gx) : bool :=
   gx_dirty g ||
   (negb (gx_panic g) &&
    (if gx_rc g =? 0 then (gx_after g <=? gx_mark g * 7 / 8) || (gx_before g =? 0)
     else gx_before g <? N.max 1 (gx_mark g)) &&
-   (gx_after g <=? gx_before g)).
+   (gx_after g <=? gx_before g) &&
+   (let '(rc, share) := expire_plan (Z.of_N (gx_mark g)) (Z.of_N (gx_before g)) (gx_sizes g) in
+    (Z.of_N (gx_rc g) - 1 =? rc)%Z &&
+    match share with
+    | None => all2 Z.eqb (gx_sizes g) (gx_afters g)
+    | Some f2 => all2 (fun b a => if asked f2 b then (a <=? f2)%Z && (0 <=? a)%Z else (a =? b)%Z) (gx_sizes g) (gx_afters g)
+    end)).
 Definition bad_monitor_gx (gs : list gx) : list N := map gx_id (filter (fun g => negb (mon_gx g)) gs).
